@@ -65,3 +65,45 @@ end
 
 end J
 end PycfModel
+
+namespace PycfModel.J
+
+mutual
+  theorem beq_eq : (a b : J) → (beq a b = true ↔ a = b)
+    | .null, b => by cases b <;> simp [beq]
+    | .bool x, b => by cases b <;> simp [beq]
+    | .int x, b => by cases b <;> simp [beq]
+    | .num x, b => by cases b <;> simp [beq]
+    | .str x, b => by cases b <;> simp [beq]
+    | .leaf k x, b => by cases b <;> simp [beq]
+    | .arr xs, b => by
+      cases b with
+      | arr ys => simp [beq, beqList_eq xs ys]
+      | _ => simp [beq]
+    | .obj xs, b => by
+      cases b with
+      | obj ys => simp [beq, beqMembers_eq xs ys]
+      | _ => simp [beq]
+  theorem beqList_eq : (xs ys : List J) → (beqList xs ys = true ↔ xs = ys)
+    | [], ys => by cases ys <;> simp [beqList]
+    | x :: xs, ys => by
+      cases ys with
+      | nil => simp [beqList]
+      | cons y ys => simp [beqList, beq_eq x y, beqList_eq xs ys]
+  theorem beqMembers_eq : (xs ys : List (String × J)) → (beqMembers xs ys = true ↔ xs = ys)
+    | [], ys => by cases ys <;> simp [beqMembers]
+    | (k, x) :: xs, ys => by
+      cases ys with
+      | nil => simp [beqMembers]
+      | cons y ys =>
+        obtain ⟨k', y⟩ := y
+        simp [beqMembers, beq_eq x y, beqMembers_eq xs ys, and_assoc]
+end
+
+instance : DecidableEq J := fun a b => decidable_of_iff _ (beq_eq a b)
+
+instance : LawfulBEq J where
+  eq_of_beq h := (beq_eq _ _).1 h
+  rfl := (beq_eq _ _).2 rfl
+
+end PycfModel.J
